@@ -51,8 +51,8 @@ def _is_del_seed(a):
     return isinstance(a, ast.Delete) and any(unparse(t).replace('"', "'") == "CobaContext.store['experiment_seed']" for t in a.targets)
 
 
-def r1_seed_marshalling(ctx):
-    ctx.rule("C01.R1", "the experiment seed is in CobaContext.store on every path before the pipeline runs and is removed "
+def r1_seed_marshalling(ctx, rule="C01.R1"):
+    ctx.rule(rule, "the experiment seed is in CobaContext.store on every path before the pipeline runs and is removed "
                        "only afterwards; the worker store is built from **CobaContext.store and installed in each worker "
                        "before the wrapped filter runs")
     run = ctx.fn(EXP, "Experiment.run")
@@ -62,54 +62,54 @@ def r1_seed_marshalling(ctx):
         for c in walk_shallow(n.ast)))
     stores = nodes_where(cfg, lambda n: n.kind == "stmt" and _is_store_seed(n.ast))
     dels = nodes_where(cfg, lambda n: n.kind == "stmt" and _is_del_seed(n.ast))
-    ctx.floor("C01.R1", "pipeline .run() statements in Experiment.run", len(runs), 1)
+    ctx.floor(rule, "pipeline .run() statements in Experiment.run", len(runs), 1)
     dom = cfg.dominators()
     for r in runs:
         ok = any(s in dom[r] for s in stores)
-        ctx.ob("C01.R1", EXP, "Experiment.run", cfg.nodes[r].ast, "store['experiment_seed'] = seed dominates the pipeline run", ok)
+        ctx.ob(rule, EXP, "Experiment.run", cfg.nodes[r].ast, "store['experiment_seed'] = seed dominates the pipeline run", ok)
         # no delete can precede the run
         bad = [d for d in dels if r in cfg.reachable(d)]
-        ctx.ob("C01.R1", EXP, "Experiment.run", cfg.nodes[r].ast, "the seed is not deleted on any path before the pipeline run", not bad,
+        ctx.ob(rule, EXP, "Experiment.run", cfg.nodes[r].ast, "the seed is not deleted on any path before the pipeline run", not bad,
                stmt="no-del-before:" + unparse(cfg.nodes[r].ast))
     for s in stores:
         a = cfg.nodes[s].ast
-        ctx.ob("C01.R1", EXP, "Experiment.run", a, "the stored experiment seed is run()'s seed argument", unparse(a.value) == "seed")
+        ctx.ob(rule, EXP, "Experiment.run", a, "the stored experiment seed is run()'s seed argument", unparse(a.value) == "seed")
     # (b) worker store built from **CobaContext.store and handed to ProcessFilter
     flt = ctx.fn(CMP, "CobaMultiprocessor.filter")
     pfs = find_calls(flt, "ProcessFilter")
-    ctx.floor("C01.R1", "ProcessFilter constructions", len(pfs), 1)
+    ctx.floor(rule, "ProcessFilter constructions", len(pfs), 1)
     for c in pfs:
         a = arg_or_kw(c, 3, "store")
         vals = assigned_value(flt, a.id) if isinstance(a, ast.Name) else ([a] if a is not None else [])
         ok = bool(vals) and all(isinstance(v, ast.Dict) and any(k is None and unparse(x) == "CobaContext.store" for k, x in zip(v.keys, v.values))
                                 for v in vals)
-        ctx.ob("C01.R1", CMP, "CobaMultiprocessor.filter", c, "the store marshalled to workers contains **CobaContext.store", ok)
+        ctx.ob(rule, CMP, "CobaMultiprocessor.filter", c, "the store marshalled to workers contains **CobaContext.store", ok)
         a0 = arg_or_kw(c, 0, "filter")
-        ctx.ob("C01.R1", CMP, "CobaMultiprocessor.filter", c, "the worker wraps the same filter as the in-process arm",
+        ctx.ob(rule, CMP, "CobaMultiprocessor.filter", c, "the worker wraps the same filter as the in-process arm",
                a0 is not None and unparse(a0) == "self._filter", stmt="wrapped:" + unparse(c))
     mps = find_calls(flt, "Multiprocessor")
     for c in mps:
         a0 = c.args[0] if c.args else None
         vals = assigned_value(flt, a0.id) if isinstance(a0, ast.Name) else []
         ok = bool(vals) and all(unparse(v) == "self._filter" or has_call(v, "ProcessFilter") for v in vals)
-        ctx.ob("C01.R1", CMP, "CobaMultiprocessor.filter", c, "Multiprocessor runs either the bare filter (in-process) or its ProcessFilter wrapper", ok)
+        ctx.ob(rule, CMP, "CobaMultiprocessor.filter", c, "Multiprocessor runs either the bare filter (in-process) or its ProcessFilter wrapper", ok)
     # (c) ProcessFilter.filter installs the marshalled context before the wrapped filter is entered
     pf = ctx.fn(CMP, "CobaMultiprocessor.ProcessFilter.filter")
     init = ctx.fn(CMP, "CobaMultiprocessor.ProcessFilter.__init__")
     pcfg = CFG(pf)
     inner = nodes_where(pcfg, lambda n: n.ast is not None and node_ast_for_effects(n) is not None
                         and any(isinstance(c, ast.Call) and unparse(c.func) == "self._filter.filter" for c in walk_shallow(node_ast_for_effects(n))))
-    ctx.floor("C01.R1", "wrapped filter call in ProcessFilter.filter", len(inner), 1)
+    ctx.floor(rule, "wrapped filter call in ProcessFilter.filter", len(inner), 1)
     pdom = pcfg.dominators()
     for field in ("store", "cacher", "logger"):
         sts = nodes_where(pcfg, lambda n: n.kind == "stmt" and isinstance(n.ast, ast.Assign) and
                           any(unparse(t) == f"CobaContext.{field}" for t in n.ast.targets) and unparse(n.ast.value) == f"self._{field}")
         for i in inner:
-            ctx.ob("C01.R1", CMP, "CobaMultiprocessor.ProcessFilter.filter", pcfg.nodes[i].ast,
+            ctx.ob(rule, CMP, "CobaMultiprocessor.ProcessFilter.filter", pcfg.nodes[i].ast,
                    f"CobaContext.{field} = self._{field} dominates the wrapped filter call", any(s in pdom[i] for s in sts),
                    stmt=f"install {field} before " + unparse(pcfg.nodes[i].ast))
         st = [n for n in walk_shallow(init) if isinstance(n, ast.Assign) and any(is_self_attr(t, f"_{field}") for t in n.targets)]
-        ctx.ob("C01.R1", CMP, "CobaMultiprocessor.ProcessFilter.__init__", st[0] if st else init,
+        ctx.ob(rule, CMP, "CobaMultiprocessor.ProcessFilter.__init__", st[0] if st else init,
                f"self._{field} is the constructor's {field}", bool(st) and all(unparse(s.value) == field for s in st), stmt=f"self._{field} store")
 
 
@@ -628,6 +628,9 @@ def r8_shared_objects(ctx):
     c02.chunker_partitions(sub, "C01.R8")   # maxtasksperchunk only re-groups the tasks
     c03.r13_evaluators_hold_no_generator(sub)   # an evaluator object shared by several triples in one process but pickled afresh per chunk for workers
     c03.r12_copy_flag_owner(sub)
+    # ProcessTasks peeks at a cached environment and drops the read: in-process the next task replays the SAME Cache object (a truncated-but-complete buffer),
+    # a worker gets a freshly pickled one
+    c04.r6_replay_buffer(sub, rule="C01.R8")
     for o in sub.obs:
         o.rule = "C01.R8"
         ctx.obs.append(o)
@@ -636,7 +639,20 @@ def r8_shared_objects(ctx):
     ctx.floor("C01.R8", "shared-object obligations", len(sub.obs), 15)
 
 
+def _cache_finally(tree):
+    """Cache.filter drops the saved iterator in a finally around the drain loop (which also runs when the read is abandoned)."""
+    from ..mutate import find_def
+    fn = find_def(tree, "Cache.filter")
+    loops = [i for i, st in enumerate(fn.body) if isinstance(st, ast.While)]
+    if not loops:
+        raise M.TargetMissing("drain loop of Cache.filter")
+    i = loops[-1]
+    tail = fn.body[i + 1:]
+    fn.body[i:] = [ast.Try(body=[fn.body[i]], handlers=[], orelse=[], finalbody=tail or [ast.Pass()])]
+
+
 CONTROLS = [
+    ("cache marked complete in a finally", "coba/pipes/filters.py", lambda tree: _cache_finally(tree), "C01.R8"),
     ("vw arguments in hash order", "coba/learners/vowpal.py", M.replace_expr("make_args", "sorted(ignore_linear)", "ignore_linear"), "C01.R7"),
     ("LinUCB terms in hash order", "coba/learners/linucb.py", M.replace_expr("LinUCBLearner._initialize", "list(dict.fromkeys(filter(None, [f.replace('x', '') if isinstance(f, str) else f for f in self._X])))",
         "list(set(filter(None, [f.replace('x', '') if isinstance(f, str) else f for f in self._X])))"), "C01.R7"),
